@@ -132,6 +132,12 @@ pub fn check_map_object(doc: &Value, o: &ObsMap, allow_range: bool) -> Result<()
             if o.ignore.is_empty() {
                 return fail("ignoreList-present", "map has no ignore list but ignoreList is written".into());
             }
+            // as a set: the statement fixes which ids the key carries, not their order
+            let got = got.map(|mut g| {
+                g.sort_unstable();
+                g.dedup();
+                g
+            });
             if got.as_ref() != Some(&o.ignore) {
                 return fail("ignoreList", format!("ignoreList {:?}, map says {:?}", a, o.ignore));
             }
